@@ -582,9 +582,9 @@ Definition spec_send (p : policy) (bd : body) (sc : list beh) (t : Z) : result *
 (* the stateless specification of auth.Client.Do (empty cache, token request spelled out) for
    bodies that can always be replayed and a context that never ends: spec_send for the first
    send, for the token request, and for the re-send on the rest of the registry's script *)
-Definition spec_auth (p : policy) (bd : body) (sc : list beh) (tb : body) (tsc : list beh)
+Definition spec_auth_at (p : policy) (bd : body) (sc : list beh) (tb : body) (tsc : list beh) (t0 : Z)
   : result * Z * list (Z * str) * list (Z * str) * list (Z * str) :=
-  let '(r1, t1, l1) := spec_send p bd sc 0 in
+  let '(r1, t1, l1) := spec_send p bd sc t0 in
   if challenged r1 then
     let '(kr, kt, kl) := if bearer_challenged r1 then spec_send p tb tsc t1 else (r1, t1, []) in
     if negb (bearer_challenged r1) || token_ok kr then
@@ -592,6 +592,27 @@ Definition spec_auth (p : policy) (bd : body) (sc : list beh) (tb : body) (tsc :
       (r2, t2, l1, kl, l2)
     else (token_error kr, kt, l1, kl, [])
   else (r1, t1, l1, [], []).
+
+Definition spec_auth (p : policy) (bd : body) (sc : list beh) (tb : body) (tsc : list beh) :=
+  spec_auth_at p bd sc tb tsc 0.
+
+Definition spec_plain_at (p : policy) (bd : body) (sc : list beh) (t0 : Z)
+  : result * Z * list (Z * str) * list (Z * str) * list (Z * str) :=
+  let '(r, t, l) := spec_send p bd sc t0 in (r, t, l, [], []).
+
+(* the stateless specification of a blob push (empty token cache, replayable blob, no
+   cancellation): the POST by spec_auth_at / spec_plain_at; on 202 the PUT on the rest of both
+   scripts, through the auth logic only if the POST was not re-sent with credentials *)
+Definition spec_push (authc : bool) (p : policy) (bd : body) (sc : list beh) (tb : body) (tsc : list beh) :=
+  let post := if authc then spec_auth_at p no_body sc tb tsc 0 else spec_plain_at p no_body sc 0 in
+  let '(r, t, l1, kl, l2) := post in
+  if accepted r then
+    let sc' := skipn (length (l1 ++ l2)) sc in
+    let tsc' := skipn (length kl) tsc in
+    let authed := match l2 with [] => false | _ => true end in
+    let put := if authc && negb authed then spec_auth_at p bd sc' tb tsc' t else spec_plain_at p bd sc' t in
+    (fst (fst (fst (fst put))), snd (fst (fst (fst put))), post, Some put)
+  else (r, t, post, None).
 
 (* ------------------------------------------------------------------ *)
 (* Acceptor for observed exponential-backoff results (the jitter is random, the
